@@ -52,6 +52,63 @@ def _read_exact(it, st, args, ctx):
     return outs
 
 
+def _cursor_cell(it, st, p):
+    cur = it.load(st, p)
+    while isinstance(cur, Ptr):
+        p = cur
+        cur = it.load(st, p)
+    return p, cur
+
+
+@summary(r'^<.* as (std::io::)?Read>::(take|by_ref)$')
+def _read_take(it, st, args, ctx):
+    """Read::take(reader, limit): a view that yields at most `limit` further bytes of the same cursor; by_ref: the reader"""
+    if ctx.callee.endswith('by_ref'):
+        return args[0]
+    return Opaque('Take', (args[0], args[1]))
+
+
+@summary(r'^<.* as (std::io::)?Read>::read_to_end$')
+def _read_to_end(it, st, args, ctx):
+    """appends everything the reader still yields (for a Take: at most its limit) to the vector; never fails on a cursor"""
+    r = args[0]
+    v = it.load(st, r) if isinstance(r, Ptr) else r
+    while isinstance(v, Ptr):
+        r = v
+        v = it.load(st, r)
+    limit = None
+    if isinstance(v, Opaque) and v.kind == 'Take':
+        inner, limit = v.data
+        cptr, cur = _cursor_cell(it, st, inner) if isinstance(inner, Ptr) else (None, inner)
+    else:
+        cptr, cur = r, v
+    if not (isinstance(cur, Opaque) and cur.kind == 'Cursor') or cptr is None:
+        raise Unsupported('read_to_end on %r' % (cur,))
+    c = cur.data
+    vptr = args[1]
+    vec = it.load(st, vptr)
+    while isinstance(vec, Ptr):
+        vptr = vec
+        vec = it.load(st, vptr)
+    left = c.avail - bv(c.pos, 64)  # avail >= pos on every path that got here
+    want = left if limit is None else z3.If(z3.ULT(limit, left), limit, left)
+    outs = []
+    for n in range(0, len(c.data) - c.pos + 1):
+        cond = simp(want == bv(n, 64))
+        if z3.is_false(cond) or not it.feasible(st, cond):
+            continue
+        s2 = st.fork()
+        s2.assume(cond)
+        it.store(s2, vptr, Agg('Vec', list(vec.fields) + list(c.data[c.pos:c.pos + n])))
+        it.store(s2, cptr, Opaque('Cursor', CursorM(c.data, c.pos + n, c.avail)))
+        if limit is not None and isinstance(r, Ptr):
+            it.store(s2, r, Opaque('Take', (inner, limit - bv(n, 64))))
+        outs.append((s2, Ret(mk_ok(bv(n, 64)))))
+    if not outs:
+        raise Unsupported('read_to_end: no feasible length')
+    return outs
+
+
 @summary(r'^<Vec<u8> as (std::io::)?Write>::write_all$')
 def _write_all(it, st, args, ctx):
     v = it.load(st, args[0])
